@@ -158,6 +158,10 @@ class UpdateTaskState(Unit):
             out.append(("item", ev, st.CANCELED, "absent", "one+fail"))            # a canceled task is un-staged
             out.append(("item", ev, st.FAILED, "items_completed", "one+fail"))     # a failed one is kept, flagged
         out.append(("action", st.RUNNING, None, "absent", "leaf"))
+        if tier != "quick":
+            # the three-target configuration multiplies every other dimension: explored only for the
+            # completing reports of a running task (the case it was added for)
+            out = [s_ for s_ in out if s_[4] != "one+fail+noop" or (s_[0] == "action" and s_[2] == st.RUNNING and s_[1] in (st.SUCCEEDED, st.FAILED))]
         if tier == "quick":
             # quick tier: every (record, event) pair for which the task table has a row, on the
             # configuration "one"; the completing pairs from a running/pending/pausing/canceling record
